@@ -20,11 +20,15 @@ class SymKernel(BaseKernel):
         self.st = state
         self.pending = []
         self.input_names = []
+        self._seen = set()
+        self._assumed = set()
 
     # ---- inputs
     def _var(self, name, kind="real"):
         v = self.st.var(name, kind)
-        self.input_names.append(name)
+        if name not in self._seen:
+            self._seen.add(name)
+            self.input_names.append(name)
         return Sym(Poly.var(v))
 
     def real(self, name):
@@ -35,12 +39,16 @@ class SymKernel(BaseKernel):
 
     def pos(self, name):
         x = self._var(name)
-        self.st.assume(("lt", -x))
+        if ("pos", name) not in self._assumed:
+            self._assumed.add(("pos", name))
+            self.st.assume(("lt", -x))
         return x
 
     def nonneg(self, name):
         x = self._var(name)
-        self.st.assume(("le", -x))
+        if ("nonneg", name) not in self._assumed:
+            self._assumed.add(("nonneg", name))
+            self.st.assume(("le", -x))
         return x
 
     def small(self, name, bound):
@@ -101,8 +109,11 @@ class SymKernel(BaseKernel):
         self.pending.append(("holds", label, ("or", ("not", S.formula_of(hyp)), S.formula_of(concl)), None))
         return True
 
-    def check(self, cond, label):
-        self.goals.append({"label": label, "kind": "struct", "status": "proved" if cond else "failed", "backend": "concrete", "n": 1})
+    def check(self, cond, label, detail=None):
+        g = {"label": label, "kind": "struct", "status": "proved" if cond else "failed", "backend": "concrete", "n": 1}
+        if detail is not None and not cond:
+            g["detail"] = str(detail)[:600]
+        self.goals.append(g)
 
     def returns(self, thunk, label):
         v = super().returns(thunk, label)
@@ -311,7 +322,7 @@ def _solve_exact(rows, nvars):
 
 # --------------------------------------------------------------------------- running an obligation over all paths
 
-def run_symbolic(fn, repo, eager=False, cert_backends=("z3",), max_paths=MAX_PATHS, solver_model=None):
+def run_symbolic(fn, repo, eager=False, cert_backends=("z3",), max_paths=MAX_PATHS, solver_model=None, light=False):
     """Execute fn(k) on every feasible control path.  Returns a result dict (JSON-able except 'certs')."""
     work = [[]]
     paths = []
@@ -329,6 +340,7 @@ def run_symbolic(fn, repo, eager=False, cert_backends=("z3",), max_paths=MAX_PAT
         st = S.new_state()
         st.trail = list(trail)
         st.eager = eager
+        st.light_only = light
         st.decider = smt.decider
         symscipy.reset_ghost(solver_model)
         k = SymKernel(repo, st)
